@@ -219,6 +219,7 @@ func checkC07(cr *checkResult) {
 	}
 	lin := map[int]lineage{}
 	handle := map[int]string{}
+	complete := map[int]bool{}
 	frozen := map[int]bool{}
 	executed := map[int]bool{}
 	postFreezeParse := map[int]bool{} // op ids of Parse* calls made on a frozen set
@@ -234,6 +235,7 @@ func checkC07(cr *checkResult) {
 		if r.Created > 0 {
 			id := r.Created - 1
 			handle[id] = r.Handle
+			complete[id] = r.How != "clone" || r.Complete
 			if r.How == "clone" {
 				lin[id] = lineage{parent: op.Set, cutIdx: i}
 				cr.note("clone_created")
@@ -361,7 +363,10 @@ func checkC07(cr *checkResult) {
 				// "the set's root handle" must name the same template along
 				// the whole lineage (Clone does not carry over a root that was
 				// never parsed)
-				if handle[cur] != handle[set] {
+				if handle[cur] != handle[set] || !complete[cur] {
+					// also: a member declared with New and never parsed is
+					// not carried over, so calls that name it as receiver or
+					// callee address different things in the two worlds
 					usable = false
 				}
 			}
